@@ -6,7 +6,7 @@ using namespace vsp;
 
 static void check_case(vg::Src& s, vh::Ctx& c)
 {
-    SplCase sc = gen_spl_case(s, c.arg > 0 ? static_cast<size_t>(c.arg) : 8, false);
+    SplCase sc = gen_spl_case(s, c.arg > 0 ? static_cast<size_t>(c.arg) : 8, false, true);
     c.desc = sc.describe();
     c.announce();
     label_case(c, sc.fc);
@@ -15,11 +15,37 @@ static void check_case(vg::Src& s, vh::Ctx& c)
     c.label(sc.pi.final_multi ? "final=multi" : "final=single");
     size_t n = sc.fc.m.n;
 
+    // a graph snapshot taken behind a multiple-direction router is a multiple-direction graph as
+    // well: an eroder with a slope exponent other than one must be refused on it (seeded change
+    // C12-G: snapshots answer "single flow" because they own no operators)
+    auto snapshots_reject = [&](va::IGraph& g)
+    {
+        vg::ProgModel pm = vg::model_program(sc.ops);
+        for (size_t k = 0; k < pm.graph_keys.size(); ++k)
+        {
+            if (pm.snap_single[k] || std::count(pm.graph_keys.begin(), pm.graph_keys.end(), pm.graph_keys[k]) > 1)
+                continue;
+            va::IGraph& sg = g.graph_snapshot(pm.graph_keys[k]);
+            double n2 = sc.n != 1.0 ? sc.n : 1.5;
+            bool threw = false;
+            try
+            {
+                auto spl = sg.make_spl(sc.k_is_array, sc.k, sc.karr, sc.m, n2, sc.tol, sc.default_tol);
+            }
+            catch (const std::exception&)
+            {
+                threw = true;
+            }
+            c.expect(threw, "nonlinear-on-multi-accepted", "constructing spl_eroder with slope exponent " + vg::fmt(n2) + " on the multiple-direction graph snapshot '" + pm.graph_keys[k] + "' was accepted");
+            c.label("rejection-on-snapshot");
+        }
+    };
     // exponent validation: n != 1 on a multiple-direction graph must be rejected
     if (sc.pi.final_multi && sc.n != 1.0)
     {
         Built b = build(sc.fc, sc.ops, c);
         b.graph->update_routes(sc.fc.z);
+        snapshots_reject(*b.graph);
         bool threw = false;
         try
         {
@@ -60,6 +86,7 @@ static void check_case(vg::Src& s, vh::Ctx& c)
         return;
     }
     SplRun r = run_spl(sc, c);
+    snapshots_reject(*r.b.graph);
     size_t eroded = 0, lakes = 0, clamped = 0;
     size_t rounds = s.weighted({ 150, 70, 36 }) + 1;  // 1-3 steps with the same eroder object
     c.label("rounds=" + std::to_string(rounds));
